@@ -189,6 +189,23 @@ def reconnect(chk: Check, repo: Repo) -> None:
         tc, cr, est = nodes_calling("self.transport.connect"), nodes_calling("self._connect_request"), nodes_calling("self._tunnel_established")
         ok_h = bool(tc) and bool(cr) and bool(est) and ccfg.all_paths_hit(tc[0], tests, cr, edge_ok=ccfg.normal_only, include_start=False) and ccfg.all_paths_hit(cr[0], tests, est, edge_ok=ccfg.normal_only, include_start=False)
         chk.ob("disconnect-during-connect-is-honoured", cnf.site(), ok_h, f"connect() re-tests self.{flag} between the transport connect and the ConnectRequest, and between the ConnectResponse and _tunnel_established" if ok_h else f"connect() clears self.{flag} on entry and does not test it again after its awaits: a disconnect() issued while connect() waits for the TCP handshake / ConnectResponse is forgotten — the ConnectRequest goes out and the tunnel reports CONNECTED after the user disconnected", key="connect-honours-disconnect")
+    # a loss reported while connect() is suspended (a DisconnectRequest behind the ConnectResponse in the same TCP
+    # segment, the transport going away) is not dropped either: the pending-connect branch of _tunnel_lost records it, and
+    # connect() tests the record after the ConnectResponse, before it declares the tunnel established
+    if cflag is not None:
+        tmf = cfg.must_facts()
+        rec = sorted({n.ast.targets[0].attr for n in cfg.nodes if n.kind == "stmt" and isinstance(n.ast, ast.Assign) and len(n.ast.targets) == 1 and isinstance(n.ast.targets[0], ast.Attribute) and ast.unparse(n.ast.targets[0].value) == "self"
+                      and isinstance(n.ast.value, ast.Constant) and n.ast.value.value is True and (f"self.{cflag}", True) in tmf[n.id]})
+        ok_l = False
+        if len(rec) == 1:
+            lf = rec[0]
+            ltests = [n.id for n in ccfg.nodes if n.kind == "test" and n.ast is not None and ast.unparse(n.ast) in (f"self.{lf}", f"not self.{lf}")]
+            cr_ = [n.id for n in ccfg.nodes if n.ast is not None and n.kind == "stmt" and any(call_name(c) == "self._connect_request" for c in calls(n.ast))]
+            est_ = [n.id for n in ccfg.nodes if n.ast is not None and n.kind == "stmt" and any(call_name(c) == "self._tunnel_established" for c in calls(n.ast))]
+            resets = [n.id for n in ccfg.nodes if n.kind == "stmt" and isinstance(n.ast, ast.Assign) and ast.unparse(n.ast.targets[0]) == f"self.{lf}" and isinstance(n.ast.value, ast.Constant) and n.ast.value.value is False]
+            ok_l = bool(cr_) and bool(est_) and bool(ltests) and ccfg.all_paths_hit(cr_[0], ltests, est_, edge_ok=ccfg.normal_only, include_start=False) and any(all(ccfg.dominates(r_, a_) for a_ in c_awaits) for r_ in resets)
+        chk.ob("loss-during-connect-is-honoured", cnf.site(), ok_l, (f"_tunnel_lost records a loss reported while connect() is pending (self.{rec[0]}), connect() clears the record before its first await and tests it between the ConnectResponse and _tunnel_established" if ok_l else
+               f"a loss reported while connect() is pending is dropped (records: {rec}): a DisconnectRequest processed between the ConnectResponse and the resumption of connect() leaves the interface reading 'connected' for a channel the server has closed"), key="connect|loss-heard")
     for disc, conn_, auto, task, transport, channel in product((False, True), (False, True), (False, True), ("none", "running", "finished"), (False, True), (False, True)):
         if (disc and flag is None) or (conn_ and cflag is None) or (disc and conn_):
             continue
